@@ -1,13 +1,16 @@
 import BobModel.Proofs.C15Init
+import BobModel.Generated.ConstsC15
 /-
 C15 — Shared package store is safe under concurrent projects.
 
 Property theorems about `Model/Share.lean` (model of pym/bob/share.py and the share part of builder.py).
 "All interleavings" = all schedules `sched : List Pid` of `run`, for every number of processes and programs
-(`progs : List Prog`) and every consistent initial store.  `ff = false` is the code as it is (the lock is
-released before the buffered JSON is flushed), `ff = true` is the patched `OpenLocked.__exit__`.
-Where the current code violates the property the full statement is kept as `…_goal` (not asserted), the model
-contains the witness schedule (replayed on the real code by harness/props/c15.py), and `…_partial` is what is proved.
+(`progs : List Prog`) and every consistent initial store.  `cfg : Cfg` is the variant of the code: `Cfg.fixed` is the
+source with the four fixes (gc on a store without repo.json, flush before unlock, repo.json creation window, user
+recorded after a lost install race), `Cfg.old` the source before them.  `consts_are_fixed` ties `Cfg.fixed` to the
+flags that tools/consts/c15.py extracts from the CURRENT source: reverting a fix breaks that obligation, the
+`*_old_*` witnesses below say which interleaving then fails, and the harness replays it on the real code.
+Still violated by the current code: `not_collected_while_used` (known finding F-C15-2): goal + witness + `_partial`.
 -/
 namespace C15
 open Share
@@ -18,18 +21,18 @@ open Share
 its final path has its audit trail, its workspace and a `pkg.json`, and a readable `pkg.json` records exactly the
 hash of the workspace content.  (Prepared in a private temporary directory, verified, published by one rename;
 `use` rewrites keep the hash.) -/
-theorem visible_complete (H : Nat → Nat) (ff : Bool) (g : Store) (progs : List Prog) (hg : GoodStore H g)
+theorem visible_complete (H : Nat → Nat) (cfg : Cfg) (g : Store) (progs : List Prog) (hg : GoodStore H g)
     (sched : List Pid) (b : Bid) (d : PkgDir)
-    (h : (run H ff (initSt g progs) sched).g.final b = some d) : Complete H d :=
-  (invVC_run H ff _ (init_invVC H g progs hg) sched).store b d h
+    (h : (run H cfg (initSt g progs) sched).g.final b = some d) : Complete H d :=
+  (invVC_run H cfg _ (init_invVC H g progs hg) sched).store b d h
 
 /-- the repository lock is a reader/writer lock in every reachable state: a gc inside its exclusive section
 excludes every other gc and every `use` inside its shared section -/
-theorem lock_exclusion (H : Nat → Nat) (ff : Bool) (g : Store) (progs : List Prog) (sched : List Pid) :
-    Mutex (run H ff (initSt g progs) sched) :=
-  run_inv H ff (fun s p => mutex_step H ff s p) _ (init_mutex g progs) sched
+theorem lock_exclusion (H : Nat → Nat) (cfg : Cfg) (g : Store) (progs : List Prog) (sched : List Pid) :
+    Mutex (run H cfg (initSt g progs) sched) :=
+  run_inv H cfg (fun s p => mutex_step H cfg s p) _ (init_mutex g progs) sched
 
-example : ∃ d, (run id false (initSt emptyStore [⟨.install 100 1 7 7 5 true false, none, true⟩])
+example : ∃ d, (run id Cfg.old (initSt emptyStore [⟨.install 100 1 7 7 5 true false, none, true⟩])
     [0, 0, 0]).g.final 1 = some d ∧ Complete id d := ⟨_, rfl, rfl, 7, rfl, Or.inr ⟨_, rfl, rfl⟩⟩
 
 /-! ### 2. at most one install per Build-Id -/
@@ -37,16 +40,16 @@ example : ∃ d, (run id false (initSt emptyStore [⟨.install 100 1 7 7 5 true 
 /-- **install_once**: for every Build-Id, in every state of every interleaving, the number of processes whose
 own rename published the package equals the number of collections of that Build-Id since the start plus
 (1 if it is visible now) minus (1 if it was visible at the start).  A rename publishes only onto an absent path. -/
-theorem install_once (H : Nat → Nat) (ff : Bool) (g : Store) (progs : List Prog) (hg : GoodStore H g)
+theorem install_once (H : Nat → Nat) (cfg : Cfg) (g : Store) (progs : List Prog) (hg : GoodStore H g)
     (sched : List Pid) (b : Bid) :
-    let s := run H ff (initSt g progs) sched
+    let s := run H cfg (initSt g progs) sched
     pubCount s.procs b + g.nGc b + present (g.final b) = s.g.nGc b + present (s.g.final b) := by
   intro s
   have h1 : CountInv s.g :=
-    run_inv (P := fun s => CountInv s.g) H ff (fun s p => countInv_step H ff s p) _ hg.counts sched
+    run_inv (P := fun s => CountInv s.g) H cfg (fun s p => countInv_step H cfg s p) _ hg.counts sched
   have h2 : PubInv s ∧ PubCount g.nInst s :=
-    run_inv (P := fun s => PubInv s ∧ PubCount g.nInst s) H ff
-      (fun s p hh => ⟨pubInv_step H ff s p hh.1, pubCount_step H ff g.nInst s p hh.1 hh.2⟩) _
+    run_inv (P := fun s => PubInv s ∧ PubCount g.nInst s) H cfg
+      (fun s p hh => ⟨pubInv_step H cfg s p hh.1, pubCount_step H cfg g.nInst s p hh.1 hh.2⟩) _
       ⟨init_pubInv g progs, fun b => by simp [initSt, pubCount_mkProcs]⟩ sched
   have := h1 b
   have := h2.2 b
@@ -54,26 +57,26 @@ theorem install_once (H : Nat → Nat) (ff : Bool) (g : Store) (progs : List Pro
   omega
 
 /-- while no gc collects the Build-Id, at most one process ever installs it -/
-theorem install_once_no_gc (H : Nat → Nat) (ff : Bool) (g : Store) (progs : List Prog) (hg : GoodStore H g)
-    (sched : List Pid) (b : Bid) (hgc : (run H ff (initSt g progs) sched).g.nGc b = g.nGc b) :
-    pubCount (run H ff (initSt g progs) sched).procs b ≤ 1 := by
-  have := install_once H ff g progs hg sched b
+theorem install_once_no_gc (H : Nat → Nat) (cfg : Cfg) (g : Store) (progs : List Prog) (hg : GoodStore H g)
+    (sched : List Pid) (b : Bid) (hgc : (run H cfg (initSt g progs) sched).g.nGc b = g.nGc b) :
+    pubCount (run H cfg (initSt g progs) sched).procs b ≤ 1 := by
+  have := install_once H cfg g progs hg sched b
   simp only at this
-  have h1 : present ((run H ff (initSt g progs) sched).g.final b) ≤ 1 := by unfold present; split <;> omega
+  have h1 : present ((run H cfg (initSt g progs) sched).g.final b) ≤ 1 := by unfold present; split <;> omega
   omega
 
 /-- `installSharedPackage` reports `(path, True)` exactly when its own rename published the package; every other
 install returns `(path, False)` and has published nothing -/
-theorem install_result (H : Nat → Nat) (ff : Bool) (g : Store) (progs : List Prog) (sched : List Pid)
+theorem install_result (H : Nat → Nat) (cfg : Cfg) (g : Store) (progs : List Prog) (sched : List Pid)
     (i : Nat) (pi : Proc) (installed : Bool)
-    (hi : (run H ff (initSt g progs) sched).procs[i]? = some pi) (hd : pi.pc = .done (.inst installed)) :
+    (hi : (run H cfg (initSt g progs) sched).procs[i]? = some pi) (hd : pi.pc = .done (.inst installed)) :
     pi.pub = installed := by
-  have := reach_pubInv H ff g progs sched i pi hi
+  have := reach_pubInv H cfg g progs sched i pi hi
   rw [hd] at this; exact this
 
 /-- the two racing installs of the same Build-Id: exactly one publishes, the other returns `(path, False)` -/
 example :
-    let s := run id false (initSt emptyStore [⟨.install 100 1 7 7 5 true false, none, true⟩,
+    let s := run id Cfg.old (initSt emptyStore [⟨.install 100 1 7 7 5 true false, none, true⟩,
                                               ⟨.install 101 1 7 7 5 true false, none, true⟩])
       [0, 1, 0, 1, 0, 1, 1, 0, 0, 0, 0, 0]
     pubCount s.procs 1 = 1 ∧ (s.procs[0]?).map (·.pc) = some (.done (.inst true)) ∧
@@ -115,29 +118,29 @@ theorem gc_policy_subset (quota : Option Nat) (pun : Bool) (cands : List Cand) (
 
 /-- in every interleaving a gc without `--used` (and the automatic gc of an install) only ever holds candidates
 it flagged unused: used packages are collected only with `--used` -/
-theorem gc_policy_nonforced (H : Nat → Nat) (ff : Bool) (g : Store) (progs : List Prog) (sched : List Pid)
-    (i : Nat) (pi : Proc) (hi : (run H ff (initSt g progs) sched).procs[i]? = some pi) :
+theorem gc_policy_nonforced (H : Nat → Nat) (cfg : Cfg) (g : Store) (progs : List Prog) (sched : List Pid)
+    (i : Nat) (pi : Proc) (hi : (run H cfg (initSt g progs) sched).procs[i]? = some pi) :
     CandOk pi.prog pi.pc := by
   have : ∀ s, (∀ (i : Nat) (pi : Proc), s.procs[i]? = some pi → CandOk pi.prog pi.pc) →
-      ∀ p, (∀ (i : Nat) (pi : Proc), (step H ff s p).procs[i]? = some pi → CandOk pi.prog pi.pc) := by
+      ∀ p, (∀ (i : Nat) (pi : Proc), (step H cfg s p).procs[i]? = some pi → CandOk pi.prog pi.pc) := by
     intro s hs p
-    rcases step_cases H ff s p with ⟨_, e⟩ | ⟨pr, hpr, e⟩
+    rcases step_cases H cfg s p with ⟨_, e⟩ | ⟨pr, hpr, e⟩
     · rw [e]; exact hs
     · rw [e]
       intro i pi hi
       simp only at hi
       rcases getElem?_set_cases hi with ⟨rfl, rfl, _⟩ | ⟨_, hi'⟩
-      · exact stepPc_candOk H ff pr.prog _ _ s.g pr.pc (hs i pr hpr)
+      · exact stepPc_candOk H cfg pr.prog _ _ s.g pr.pc (hs i pr hpr)
       · exact hs i pi hi'
-  exact run_inv (P := fun s => ∀ (i : Nat) (pi : Proc), s.procs[i]? = some pi → CandOk pi.prog pi.pc) H ff
+  exact run_inv (P := fun s => ∀ (i : Nat) (pi : Proc), s.procs[i]? = some pi → CandOk pi.prog pi.pc) H cfg
     (fun s p hs => this s hs p) _
     (fun i pi hi => by rw [(getElem?_mkProcs hi).1]; intro _ c hc; cases hc) sched i pi hi
 
 /-- only a gc move removes a package from its final path, and it removes the head of the remaining plan -/
-theorem only_gc_removes (H : Nat → Nat) (ff : Bool) (prog : Prog) (exO shO : Bool) (g : Store) (pc : Pc) (b : Bid)
-    (h1 : g.final b ≠ none) (h2 : (stepPc H ff prog exO shO g pc).1.final b = none) :
+theorem only_gc_removes (H : Nat → Nat) (cfg : Cfg) (prog : Prog) (exO shO : Bool) (g : Store) (pc : Pc) (b : Bid)
+    (h1 : g.final b ≠ none) (h2 : (stepPc H cfg prog exO shO g pc).1.final b = none) :
     ∃ rm c rest t d te, pc = .gMove rm (c :: rest) t d te ∧ c.bid = b := by
-  rcases stepPc_final H ff prog exO shO g pc b with hs | ⟨_, _, _, hn, _⟩ | ⟨rm, c, rest, t, d, te, hp, hb, _, _⟩ |
+  rcases stepPc_final H cfg prog exO shO g pc b with hs | ⟨_, _, _, hn, _⟩ | ⟨rm, c, rest, t, d, te, hp, hb, _, _⟩ |
       ⟨_, _, _, _, _, hn, _⟩
   · rw [hs] at h2; exact absurd h2 h1
   · exact absurd hn h1
@@ -153,17 +156,31 @@ theorem gc_policy_dry_run (prog : Prog) (g : Store) (rm : List (Bid × Nat)) (ca
 example : (gcSelect (some 20) false [⟨true, 5, 10, 1⟩, ⟨true, 3, 10, 2⟩, ⟨true, 9, 10, 3⟩] 35).1.map (·.bid) = [2, 1] := by
   decide
 
-/-! ### 5. no spurious failure — violated by the current code -/
+/-! ### 0. the model follows the current source -/
 
-/-- failures that are caused by another project working on the store or by a store that is still empty -/
-def Err.spurious : Err → Bool
-  | .fileNotFound | .jsonDecode | .corruptMeta | .renameENOENT => true
-  | _ => false
+/-- the variant of the code found in the current source (Generated/ConstsC15.lean) is the fixed one -/
+theorem consts_are_fixed :
+    (⟨Consts.C15.flushBeforeUnlock, Consts.C15.gcMissingOk, Consts.C15.emptyOk, Consts.C15.lostRaceRecords⟩ : Cfg)
+      = Cfg.fixed := by decide
 
-/-- full statement (NOT asserted): no operation ends in a spurious failure -/
-def no_spurious_failure_goal (H : Nat → Nat) (ff : Bool) : Prop :=
-  ∀ (g : Store) (progs : List Prog), GoodStore H g → ∀ (sched : List Pid) (i : Nat) (pi : Proc) (e : Err),
-    (run H ff (initSt g progs) sched).procs[i]? = some pi → pi.pc = .done (.err e) → Err.spurious e = false
+/-! ### 5. no spurious failure -/
+
+/-- full statement: from a consistent store (including the empty one: no directory, no repo.json) no operation of
+any interleaving ends with FileNotFoundError(repo.json), JSONDecodeError, "Corrupt meta info" or ENOENT at the
+collecting rename -/
+def no_spurious_failure_goal (H : Nat → Nat) (cfg : Cfg) : Prop :=
+  ∀ (g : Store) (L : List (Bid × Nat)) (progs : List Prog), GoodStoreFF g L →
+    ∀ (sched : List Pid) (i : Nat) (pi : Proc) (e : Err),
+      (run H cfg (initSt g progs) sched).procs[i]? = some pi → pi.pc = .done (.err e) → e.spurious = false
+
+/-- **no_spurious_failure** (full strength, fixed code): no install, use or clean operation fails or reports
+corruption because another project works on the store at the same time or because the store is still empty. -/
+theorem no_spurious_failure (H : Nat → Nat) : no_spurious_failure_goal H Cfg.fixed := by
+  intro g L progs hg sched i pi e hi hd
+  obtain ⟨L', inv⟩ := reach_invFF H g L progs hg sched
+  have := (inv.pcs i pi hi).1
+  rw [hd] at this
+  exact this e rfl
 
 def pcOf (s : St) (p : Nat) : Option Pc := (s.procs[p]?).map (·.pc)
 
@@ -174,35 +191,35 @@ def gcAll : Prog := ⟨.gc false true false, none, true⟩
 /-- F-C15-1: the first install is between `makedirs` and `__addPackage`; another project's
 `bob clean --shared --all-unused` raises FileNotFoundError -/
 theorem witness_gc_on_empty_store :
-    pcOf (run id false (initSt emptyStore [inst 100 1, gcAll]) [0, 1, 1]) 1 = some (.done (.err .fileNotFound)) := by
+    pcOf (run id Cfg.old (initSt emptyStore [inst 100 1, gcAll]) [0, 1, 1]) 1 = some (.done (.err .fileNotFound)) := by
   decide
 
 /-- unlock before flush (repo.json): process 1 has released the repository lock, its rewrite of repo.json is still
 in its buffer; the gc takes the lock, reads an empty file and dies with JSONDecodeError -/
 theorem witness_flush_window_repo :
-    pcOf (run id false (initSt emptyStore [inst 100 1, inst 101 2, gcAll])
+    pcOf (run id Cfg.old (initSt emptyStore [inst 100 1, inst 101 2, gcAll])
       [0, 0, 0, 0, 0, 0, 0, 0, 1, 1, 1, 1, 1, 2, 2, 2, 2]) 2 = some (.done (.err .jsonDecode)) := by
   decide
 
 /-- unlock before flush (pkg.json): two projects use the same package, the second reports "Corrupt meta info" -/
 theorem witness_flush_window_pkg :
-    pcOf (run id false (initSt emptyStore [inst 100 1, useP 0 1, useP 1 1])
+    pcOf (run id Cfg.old (initSt emptyStore [inst 100 1, useP 0 1, useP 1 1])
       [0, 0, 0, 0, 0, 0, 0, 0, 1, 1, 1, 1, 1, 2, 2, 2, 2, 2, 2]) 2 = some (.done (.err .corruptMeta)) := by
   decide
 
 /-- creation window of repo.json: process 0 created it with mode "x" and has not locked it yet -/
 theorem witness_creation_window :
-    pcOf (run id false (initSt emptyStore [inst 100 1, inst 101 2])
+    pcOf (run id Cfg.old (initSt emptyStore [inst 100 1, inst 101 2])
       [0, 0, 0, 0, 0, 1, 1, 1, 1, 1, 1]) 1 = some (.done (.err .jsonDecode)) := by
   decide
 
-/-- hence the full statement is false of the current code -/
-theorem no_spurious_failure_refuted : ¬ no_spurious_failure_goal id false := by
+/-- hence the full statement was false of the code before the fixes -/
+theorem no_spurious_failure_old_refuted : ¬ no_spurious_failure_goal id Cfg.old := by
   intro h
-  have := h emptyStore [inst 100 1, gcAll] (goodStore_empty id) [0, 1, 1] 1
+  have := h emptyStore [] [inst 100 1, gcAll] goodStoreFF_empty [0, 1, 1] 1
   have hw := witness_gc_on_empty_store
   unfold pcOf at hw
-  cases hp : (run id false (initSt emptyStore [inst 100 1, gcAll]) [0, 1, 1]).procs[1]? with
+  cases hp : (run id Cfg.old (initSt emptyStore [inst 100 1, gcAll]) [0, 1, 1]).procs[1]? with
   | none => rw [hp] at hw; cases hw
   | some pi =>
     rw [hp] at hw
@@ -210,63 +227,62 @@ theorem no_spurious_failure_refuted : ¬ no_spurious_failure_goal id false := by
     have := this pi .fileNotFound hp hw
     cases this
 
+/-- the same interleavings in the fixed code: the gc on the half created store returns 0, the reader in the flush /
+creation window gets the complete file resp. an empty repository -/
+theorem witnesses_fixed :
+    pcOf (run id Cfg.fixed (initSt emptyStore [inst 100 1, gcAll]) [0, 1, 1]) 1 = some (.done (.gcSize 0)) ∧
+    pcOf (run id Cfg.fixed (initSt emptyStore [inst 100 1, inst 101 2, gcAll])
+      [0, 0, 0, 0, 0, 0, 0, 0, 1, 1, 1, 1, 1, 2, 2, 2, 2, 2, 2, 2, 2, 2, 2]) 2 = some (.done (.gcSize 0)) ∧
+    pcOf (run id Cfg.fixed (initSt emptyStore [inst 100 1, useP 0 1, useP 1 1])
+      [0, 0, 0, 0, 0, 0, 0, 0, 1, 1, 1, 1, 1, 2, 2, 2, 2, 2, 2]) 2 = some (.done (.useOk 1)) ∧
+    pcOf (run id Cfg.fixed (initSt emptyStore [inst 100 1, inst 101 2])
+      [0, 0, 0, 0, 0, 1, 1, 1, 1, 1, 1]) 1 = some (.done (.inst true)) := by
+  decide
 
-/-! ### 3. accounting, and 5. no spurious failure for the patched code -/
+/-! ### 3. accounting -/
 
-/-- **no_spurious_failure_partial** (hypotheses added: `OpenLocked.__exit__` flushes before it unlocks — the
-proposed patch, `ff = true` — and repo.json exists at the start): in every interleaving of any number of install /
-use / gc / builder processes no operation ends with FileNotFoundError(repo.json), JSONDecodeError or
-"Corrupt meta info". -/
-theorem no_spurious_failure_partial (H : Nat → Nat) (g : Store) (L : List (Bid × Nat)) (progs : List Prog)
-    (hg : GoodStoreFF g L) (sched : List Pid) (i : Nat) (pi : Proc) (e : Err)
-    (hi : (run H true (initSt g progs) sched).procs[i]? = some pi) (hd : pi.pc = .done (.err e)) :
-    bad3 e = false := by
-  obtain ⟨L', inv⟩ := reach_invFF H g L progs hg sched
-  have := (inv.pcs i pi hi).1
-  rw [hd] at this
-  exact this e rfl
-
-/-- repo.json records exactly the installed packages with their sizes -/
+/-- repo.json (read as the code reads it: missing / empty = no package) has unique keys and records exactly the
+packages at their final paths with the sizes of their pkg.json; `sumSizes` of it is the recorded repository size -/
 def Accounted (g : Store) : Prop :=
-  ∃ L, g.repo = .valid L ∧ (keys L).Nodup ∧
-    ∀ b sz, (b, sz) ∈ L ↔ ∃ d m, g.final b = some d ∧ d.info = some (.valid m) ∧ m.size = sz
+  (keys (logicalOf g.repo)).Nodup ∧
+    ∀ b sz, (b, sz) ∈ logicalOf g.repo ↔ ∃ d m, g.final b = some d ∧ d.info = some (.valid m) ∧ m.size = sz
 
-/-- full statement (NOT asserted for the current code): every quiescent state is accounted -/
-def accounting_goal (H : Nat → Nat) (ff : Bool) : Prop :=
+/-- full statement: every quiescent state of every interleaving from a consistent store is accounted -/
+def accounting_goal (H : Nat → Nat) (cfg : Cfg) : Prop :=
   ∀ (g : Store) (L : List (Bid × Nat)) (progs : List Prog), GoodStoreFF g L → ∀ (sched : List Pid),
-    (∀ (i : Nat) (pi : Proc), (run H ff (initSt g progs) sched).procs[i]? = some pi → pi.pc.isDone = true) →
-    Accounted (run H ff (initSt g progs) sched).g
+    (∀ (i : Nat) (pi : Proc), (run H cfg (initSt g progs) sched).procs[i]? = some pi → pi.pc.isDone = true) →
+    Accounted (run H cfg (initSt g progs) sched).g
 
-/-- **accounting_partial** (hypothesis added: flush before unlock, `ff = true`): in every quiescent state of every
-interleaving repo.json is valid and lists exactly the packages at their final paths with the sizes recorded in
-their pkg.json — so the recorded repository size `sumSizes L` is the sum of the installed packages. -/
-theorem accounting_partial (H : Nat → Nat) : accounting_goal H true := by
+/-- **accounting** (full strength, fixed code): after any operations, in any interleaving, the recorded repository
+size equals the sum of the installed packages. -/
+theorem accounting (H : Nat → Nat) : accounting_goal H Cfg.fixed := by
   intro g L progs hg sched hdone
   obtain ⟨L', inv⟩ := reach_invFF H g L progs hg sched
-  have hnot : ∀ (i : Nat) (pi : Proc), (run H true (initSt g progs) sched).procs[i]? = some pi →
+  have hnot : ∀ (i : Nat) (pi : Proc), (run H Cfg.fixed (initSt g progs) sched).procs[i]? = some pi →
       pi.pc.rmeta = none ∧ pi.pc.inWindow = false := by
     intro i pi hi
     have := hdone i pi hi
     cases hq : pi.pc <;> rw [hq] at this <;> first | exact ⟨rfl, rfl⟩ | cases this
-  refine ⟨L', ?_, inv.nodup, ?_⟩
-  · rcases inv.repoOk with ⟨hv, _⟩ | ⟨_, i, pi, hi, hr, _⟩
+  have hL : logicalOf (run H Cfg.fixed (initSt g progs) sched).g.repo = L' := by
+    rcases inv.repoOk with ⟨hv, _⟩ | ⟨_, i, pi, hi, hr, _⟩
     · exact hv
     · rw [(hnot i pi hi).1] at hr; cases hr
-  · intro b sz
-    constructor
-    · exact inv.recorded b sz
-    · rintro ⟨d, m, hd, hm, hs⟩
-      obtain ⟨m', hm', hor⟩ := inv.pkgs b d hd
-      rw [hm] at hm'; cases hm'
-      rcases hor with h | ⟨i, pi, hi, hw, _⟩
-      · rw [← hs]; exact h
-      · rw [(hnot i pi hi).2] at hw; cases hw
-
+  rw [Accounted, hL]
+  refine ⟨inv.nodup, ?_⟩
+  intro b sz
+  constructor
+  · exact inv.recorded b sz
+  · rintro ⟨d, m, hd, hm, hs⟩
+    obtain ⟨m', hm', hor⟩ := inv.pkgs b d hd
+    rw [hm] at hm'; cases hm'
+    rcases hor with h | ⟨i, pi, hi, hw, _⟩
+    · rw [← hs]; exact h
+    · rw [(hnot i pi hi).2] at hw; cases hw
 
 /-- from a store with one installed package two more installs, a use and an automatic gc (quota 8) run to a
-quiescent, accounted state in the patched model (`goodStoreFF_g1`: the hypotheses are satisfiable) -/
+quiescent, accounted state (`goodStoreFF_g1`: the hypotheses are satisfiable) -/
 example :
-    let s := run id true (initSt g1 [inst 101 2, ⟨.install 102 3 3 3 5 true false, some 8, true⟩, useP 0 1])
+    let s := run id Cfg.fixed (initSt g1 [inst 101 2, ⟨.install 102 3 3 3 5 true false, some 8, true⟩, useP 0 1])
       [0, 1, 2, 0, 1, 2, 0, 1, 2, 0, 1, 2, 0, 1, 2, 0, 1, 2, 1, 1, 1, 1, 1, 1, 1, 1, 1, 1, 1, 1, 0, 0, 0]
     (s.procs.map (·.pc.isDone)) = [true, true, true] ∧ s.g.repo = .valid [(3, 5), (2, 5)] ∧
       (s.g.final 1).isNone = true ∧ (s.g.final 2).isSome = true ∧ (s.g.final 3).isSome = true := by
@@ -278,65 +294,74 @@ theorem accounting_delta (l : List (Bid × Nat)) (b : Bid) (sz : Nat) (h : (keys
     (b ∉ keys l → sumSizes (setPkg l b sz) = sumSizes l + sz) :=
   ⟨sumSizes_erasePkg l b sz h, sumSizes_setPkg_new l b sz⟩
 
-/-- the current code breaks the accounting: the install of package 3 reads repo.json in the flush window of the
+/-- the code before the fixes broke the accounting: the install of package 3 reads repo.json in the flush window of the
 install of package 2, dies after it has published, and package 3 stays unrecorded for ever -/
 theorem witness_accounting_broken :
-    let s := run id false (initSt emptyStore [inst 100 1, inst 101 2, inst 102 3])
+    let s := run id Cfg.old (initSt emptyStore [inst 100 1, inst 101 2, inst 102 3])
       [0, 0, 0, 0, 0, 0, 0, 0, 2, 2, 2, 2, 1, 1, 1, 1, 1, 2, 2, 1]
     s.g.repo = .valid [(1, 5), (2, 5)] ∧ (s.g.final 3).isSome = true ∧
       (s.procs.map (·.pc)) = [.done (.inst true), .done (.inst true), .done (.err .jsonDecode)] := by
   decide
 
 
-/-- hence the full accounting statement is false of the current code, even when repo.json exists at the start -/
-theorem accounting_refuted : ¬ accounting_goal id false := by
+/-- hence the full accounting statement was false of the code before the fixes -/
+theorem accounting_old_refuted : ¬ accounting_goal id Cfg.old := by
   intro h
-  have hd : ∀ (i : Nat) (pi : Proc), (run id false (initSt g1 [inst 101 2, inst 102 3])
+  have hd : ∀ (i : Nat) (pi : Proc), (run id Cfg.old (initSt g1 [inst 101 2, inst 102 3])
       [1, 1, 1, 1, 0, 0, 0, 0, 0, 1, 1, 0]).procs[i]? = some pi → pi.pc.isDone = true := by
     intro i pi hi
-    have hl : (run id false (initSt g1 [inst 101 2, inst 102 3]) [1, 1, 1, 1, 0, 0, 0, 0, 0, 1, 1, 0]).procs.map
+    have hl : (run id Cfg.old (initSt g1 [inst 101 2, inst 102 3]) [1, 1, 1, 1, 0, 0, 0, 0, 0, 1, 1, 0]).procs.map
         (·.pc.isDone) = [true, true] := by decide
     have : pi.pc.isDone ∈ [true, true] := by
       rw [← hl]; exact List.mem_map.mpr ⟨pi, List.mem_of_getElem? hi, rfl⟩
     simpa using this
-  obtain ⟨L, hr, _, hiff⟩ := h g1 [(1, 5)] [inst 101 2, inst 102 3] goodStoreFF_g1 [1, 1, 1, 1, 0, 0, 0, 0, 0, 1, 1, 0] hd
-  have hrepo : (run id false (initSt g1 [inst 101 2, inst 102 3]) [1, 1, 1, 1, 0, 0, 0, 0, 0, 1, 1, 0]).g.repo =
+  obtain ⟨_, hiff⟩ := h g1 [(1, 5)] [inst 101 2, inst 102 3] goodStoreFF_g1 [1, 1, 1, 1, 0, 0, 0, 0, 0, 1, 1, 0] hd
+  have hrepo : (run id Cfg.old (initSt g1 [inst 101 2, inst 102 3]) [1, 1, 1, 1, 0, 0, 0, 0, 0, 1, 1, 0]).g.repo =
       .valid [(1, 5), (2, 5)] := by decide
-  rw [hrepo] at hr
-  cases hr
+  rw [hrepo] at hiff
   have : (3, 5) ∈ [(1, 5), (2, 5)] := (hiff 3 5).mpr ⟨⟨true, some 3, some (.valid ⟨3, 5, [102]⟩), 1⟩, ⟨3, 5, [102]⟩, by decide, rfl, rfl⟩
   simp at this
 
-/-! ### 6. not collected while used — violated by the current code -/
+/-! ### 6. not collected while used — violated by the current code (known finding F-C15-2) -/
 
 /-- full statement (NOT asserted): whenever a non-forced gc moves a package away, no workspace links to it, and a
 workspace is never linked to a package that is not there -/
-def not_collected_while_used_goal (H : Nat → Nat) (ff : Bool) : Prop :=
+def not_collected_while_used_goal (H : Nat → Nat) (cfg : Cfg) : Prop :=
   ∀ (g : Store) (progs : List Prog), GoodStore H g → (∀ w, g.links w = none) →
     ∀ (sched : List Pid) (w : Ws) (b : Bid),
-      (run H ff (initSt g progs) sched).g.links w = some b → (run H ff (initSt g progs) sched).g.final b ≠ none
-      ∨ ∃ (i : Nat) (pi : Proc), (run H ff (initSt g progs) sched).procs[i]? = some pi ∧ (gcCtx pi.prog).pruneUsed = true
+      (run H cfg (initSt g progs) sched).g.links w = some b → (run H cfg (initSt g progs) sched).g.final b ≠ none
+      ∨ ∃ (i : Nat) (pi : Proc), (run H cfg (initSt g progs) sched).procs[i]? = some pi ∧ (gcCtx pi.prog).pruneUsed = true
 
-/-- the lost race at install leaves the losing workspace unrecorded: project 1 links package 1 without being in
+/-- before fix 4 the lost race at install left the losing workspace unrecorded: project 1 links package 1 without being in
 `users`; after project 0 is removed a plain `--all-unused` gc collects the package that workspace 1 links to -/
 theorem witness_lost_race_unrecorded_user :
-    let s := run id false (initSt emptyStore [inst 0 1 true, inst 1 1 true, ⟨.dropws 0, none, true⟩, gcAll])
+    let s := run id Cfg.old (initSt emptyStore [inst 0 1 true, inst 1 1 true, ⟨.dropws 0, none, true⟩, gcAll])
       [0, 1, 0, 0, 0, 0, 0, 0, 0, 0, 1, 1, 1, 2, 3, 3, 3, 3, 3]
     (pcOf s 3 = some (.gMove [(1, 5)] [⟨true, 0, 5, 1⟩] 0 false false) ∧ s.g.links 1 = some 1 ∧
       (s.g.final 1).isSome = true ∧ ((s.g.final 1).bind (·.info)) = some (.valid ⟨1, 5, [0]⟩)) ∧
-    (step id false s 3).g.final 1 = none ∧ (step id false s 3).g.links 1 = some 1 := by
+    (step id Cfg.old s 3).g.final 1 = none ∧ (step id Cfg.old s 3).g.links 1 = some 1 := by
   decide
 
-/-- F-C15-2: `useSharedPackage` returned the package, the builder has not created the link yet, another project's
-gc judges the package unused and collects it; the use operation then reports success with a dangling workspace -/
+/-- with fix 4 the loser of the install race registers itself: both workspaces are recorded, the plain gc keeps the
+package -/
+theorem lost_race_user_recorded :
+    let s := run id Cfg.fixed (initSt emptyStore [inst 0 1 true, inst 1 1 true, ⟨.dropws 0, none, true⟩, gcAll])
+      [0, 1, 0, 0, 0, 0, 0, 0, 0, 0, 1, 1, 1, 1, 1, 1, 1, 1, 1, 2, 3, 3, 3, 3, 3, 3, 3, 3]
+    (s.procs.map (·.pc.isDone)) = [true, true, true, true] ∧ s.g.links 1 = some 1 ∧
+      ((s.g.final 1).bind (·.info)) = some (.valid ⟨1, 5, [0, 1]⟩) := by
+  decide
+
+/-- F-C15-2 (known finding, current code): `useSharedPackage` returned the package, the builder has not created the
+link yet, another project's gc judges the package unused and collects it; the use operation then reports success
+with a dangling workspace -/
 theorem witness_gc_between_use_and_link :
-    let s := run id false (initSt emptyStore [inst 100 1, useP 0 1 true, gcAll])
+    let s := run id Cfg.fixed (initSt emptyStore [inst 100 1, useP 0 1 true, gcAll])
       [0, 0, 0, 0, 0, 0, 0, 0, 1, 1, 1, 1, 1, 1, 2, 2, 2, 2, 2, 2, 2, 2, 1]
     pcOf s 1 = some (.done (.shared true)) ∧ pcOf s 2 = some (.done (.gcSize 0)) ∧
       s.g.links 0 = some 1 ∧ s.g.final 1 = none := by
   decide
 
-theorem not_collected_while_used_refuted : ¬ not_collected_while_used_goal id false := by
+theorem not_collected_while_used_refuted : ¬ not_collected_while_used_goal id Cfg.fixed := by
   intro h
   have hw := witness_gc_between_use_and_link
   simp only at hw
@@ -344,9 +369,9 @@ theorem not_collected_while_used_refuted : ¬ not_collected_while_used_goal id f
     [0, 0, 0, 0, 0, 0, 0, 0, 1, 1, 1, 1, 1, 1, 2, 2, 2, 2, 2, 2, 2, 2, 1] 0 1 hw.2.2.1 with h1 | ⟨i, pi, hi, hp⟩
   · exact h1 hw.2.2.2
   · have hprog : pi.prog ∈ [inst 100 1, useP 0 1 true, gcAll] := by
-      have : ∀ (s : St) (p : Nat), (step id false s p).procs.map (·.prog) = s.procs.map (·.prog) := by
+      have : ∀ (s : St) (p : Nat), (step id Cfg.fixed s p).procs.map (·.prog) = s.procs.map (·.prog) := by
         intro s p
-        rcases step_cases id false s p with ⟨_, e⟩ | ⟨pr, hpr, e⟩
+        rcases step_cases id Cfg.fixed s p with ⟨_, e⟩ | ⟨pr, hpr, e⟩
         · rw [e]
         · rw [e]
           simp only
@@ -362,12 +387,12 @@ theorem not_collected_while_used_refuted : ¬ not_collected_while_used_goal id f
             · rename_i hl
               rw [List.getElem?_eq_none (by simpa using hl)]
           · simp [ek]
-      have hall : ∀ (sched : List Pid) (s : St), (run id false s sched).procs.map (·.prog) = s.procs.map (·.prog) := by
+      have hall : ∀ (sched : List Pid) (s : St), (run id Cfg.fixed s sched).procs.map (·.prog) = s.procs.map (·.prog) := by
         intro sched
         induction sched with
         | nil => intro s; rfl
         | cons p rest ih => intro s; simp only [run]; rw [ih, this]
-      have hm : pi.prog ∈ (run id false (initSt emptyStore [inst 100 1, useP 0 1 true, gcAll])
+      have hm : pi.prog ∈ (run id Cfg.fixed (initSt emptyStore [inst 100 1, useP 0 1 true, gcAll])
           [0, 0, 0, 0, 0, 0, 0, 0, 1, 1, 1, 1, 1, 1, 2, 2, 2, 2, 2, 2, 2, 2, 1]).procs.map (·.prog) :=
         List.mem_map.mpr ⟨pi, List.mem_of_getElem? hi, rfl⟩
       rw [hall] at hm
@@ -375,14 +400,14 @@ theorem not_collected_while_used_refuted : ¬ not_collected_while_used_goal id f
     simp only [List.mem_cons, List.mem_nil_iff, or_false] at hprog
     rcases hprog with e | e | e <;> rw [e] at hp <;> simp [gcCtx, inst, useP, gcAll] at hp
 
-/-- **not_collected_while_used_partial** (what holds of the current code, hypothesis added: "at scan time, for
+/-- **not_collected_while_used_partial** (what holds of every variant of the code, hypothesis added: "at scan time, for
 recorded users"): every candidate in the hands of any gc, in any interleaving, was either flagged *used*, or at the
 moment it was scanned (under the exclusive repository lock) no workspace recorded in its `pkg.json` linked to it and it
 was not the package being installed; and a gc without `--used` holds only candidates flagged unused. -/
-theorem not_collected_while_used_partial (H : Nat → Nat) (ff : Bool) (prog : Prog) (exO shO : Bool) (g : Store)
+theorem not_collected_while_used_partial (H : Nat → Nat) (cfg : Cfg) (prog : Prog) (exO shO : Bool) (g : Store)
     (rm : List (Bid × Nat)) (k : Bid) (sz : Nat) (rest : List (Bid × Nat)) (cands : List Cand) (total : Nat) :
-    ∀ c ∈ (stepPc H ff prog exO shO g (.gScanLock rm k sz rest cands total)).2.cands,
+    ∀ c ∈ (stepPc H cfg prog exO shO g (.gScanLock rm k sz rest cands total)).2.cands,
       c ∈ cands ∨ (c.bid = k ∧ Judged prog g c ∧ ((gcCtx prog).pruneUsed = false → c.unused = true)) :=
-  scan_step H ff prog exO shO g rm k sz rest cands total
+  scan_step H cfg prog exO shO g rm k sz rest cands total
 
 end C15
